@@ -694,7 +694,7 @@ def _canon(M, v, seen=None):
 # alternatives of one selector that denote the same program by the language definition (not by the implementation): a sign `+` on a literal, the
 # two spellings of a type keyword, ...  (template, selector index) -> groups of alternative texts that may parse alike
 SAME_MEANING = {
-    ('literal_init', 0): [['1', '+1']],
+    ('literal_init', 0): [['1', '+1'], ['TRUE', 'BOOL#1']],
 }
 DISTINCT_TEMPLATES = {
     'sfc_action_qualifiers': ['FUNCTION_BLOCK fb\nVAR\n  done : BOOL;\n  tv : TIME;\nEND_VAR\nINITIAL_STEP Start:\nEND_STEP\nSTEP Work:\n  act(', ('alt', ['N', 'R', 'S', 'P', 'L', 'D', 'SD, T#1s', 'DS, T#1s', 'SL, T#1s', 'P1, T#1s', 'P0, T#1s', 'SD, T#2s', 'SD, tv', 'DS, tv', 'SL, tv', 'N, done', 'DS, T#1s, done', 'SD, T#1s, done']),
